@@ -34,6 +34,8 @@ case_strategy = st.fixed_dictionaries({
     "near_limit_class": st.sampled_from(["random", "random", "zeros", "text"]),
     # the application registers a header parameter of its own (registry with header_registry=) and uses it in the protected header
     "custom_header": st.sampled_from([None, None, None, "x-app"]),
+    # JSON serializations: the JWE object is encrypted twice (a template that is used again), the second output is the one judged
+    "times": st.sampled_from([1, 1, 2]),
 })
 
 
@@ -155,7 +157,7 @@ def run_case(case) -> dict:
         return {f"C04:forbidden-combination-not-refused:{case['kind']}": f"encryption with algs {algs} enc {plan['enc']} succeeded {detail}"}
     headerless = plan.get("headerless") and len(plan["recipients"]) > 1
     try:
-        tok = jp.jose_encrypt(plan, "attached" if headerless else case["keymode"], case["form"])
+        tok = jp.jose_encrypt(plan, "attached" if headerless else case["keymode"], case["form"], times=case.get("times", 1) if plan["ser"] != "compact" else 1)
     except Exception as e:
         return {f"C04:encrypt-raises:{tag}:{exc_key(e)}": f"{type(e).__name__}: {e} (algs {algs}, enc {plan['enc']})"}
     if headerless:
